@@ -74,7 +74,8 @@ def main():
             rw = vf.run([abidw] + o + [os.path.join(d, "lib.so")], env=vf.henv(d), binary=True)
             pr = abixml.project(rw.out)
             undefined = sorted(r_ for r_ in pr["refs"] if r_ not in pr["defs"])
-            dup = sorted(i for i, k in pr["defs"].items() if k > 1)
+            # a <subrange> is written again, with its id, in every array dimension that uses it: the same type once more, not a second type with that id
+            dup = sorted(i for i, k in pr["defs"].items() if k > 1 and pr["types"].get(i, {}).get("kind") != "subrange")
             symund = sorted(pr["symrefs"] - pr["symdefs"])
             evs.append({"e": "WellFormed", "case": idx, "where": where, "s": s, "opts": " ".join(o), "wf": pr["wf"] and rw.exit == 0 and len(rw.out) > 0,
                         "err": pr["err"], "undefined": undefined[:5], "duplicated": dup[:5], "symundefined": symund[:5] if pr["wf"] else [],
